@@ -135,8 +135,9 @@ Qed.
 (* steps *)
 
 Ltac simp_st :=
-  cbn [set_subs set_lock set_closed set_cl set_bq set_pend_subs set_fanout set_issued set_bret
-       set_sret subs lock closed cl bq pend_subs fanout issued bret sret
+  cbn [set_subs set_lock set_closed set_cl set_cl2 set_bq set_pend_subs set_pend_dead set_fanout
+       set_issued set_bret set_sret
+       subs lock closed cl cl2 bq pend_subs pend_dead fanout issued bret sret
        sb_prompt sb_wants sb_buf sb_fwd sb_ctx_done sb_exit_closed sb_registered sb_received
        prompt wants buf fwd ctx_done exit_closed registered received start
        new_sub dropped_sub] in *.
@@ -310,6 +311,9 @@ Proof.
   - (* CloseCall *)
     intros k bk Hk. destruct (I k bk Hk) as (P1 & P2 & P3). split; [|split]; try assumption.
     intros Hc Hcl. apply orb_false_iff in Hcl as [_ Hcl]. auto.
+  - (* Close2Call *)
+    intros k bk Hk. destruct (I k bk Hk) as (P1 & P2 & P3). split; [|split]; try assumption.
+    intros Hc Hcl. apply orb_false_iff in Hcl as [_ Hcl]. auto.
   - (* BcLock, open *)
     intros k bk Hk. destruct (I k bk Hk) as (P1 & P2 & P3). unfold subok in *.
     rewrite tc_ge by lia. cbn [tc] in *. rewrite app_nil_r in *.
@@ -371,6 +375,9 @@ Proof.
     unfold subok, hold. cbn [tc]. destruct (closed s); simp_st; rewrite skipn_all;
       (split; [lia|]); (split; [constructor|]); intros; repeat split; auto; discriminate.
   - (* CloseLock *)
+    intros k bk Hk. destruct (I k bk Hk) as (P1 & P2 & P3). split; [|split]; try assumption.
+    intros _ Hcl. discriminate Hcl.
+  - (* Close2Lock *)
     intros k bk Hk. destruct (I k bk Hk) as (P1 & P2 & P3). split; [|split]; try assumption.
     intros _ Hcl. discriminate Hcl.
 Qed.
@@ -447,7 +454,7 @@ Definition rest_sched : list ev :=
   [SubCall 0 true; SubLocked 0; BcCall 1%Z; BcLock 0; BcSend; BcEnd; FwdTake 0; FwdDeliver 0;
    BcCall 2%Z; BcLock 0; BcSend; BcEnd; FwdTake 0; FwdDeliver 0].
 Definition rest_st : st :=
-  mkSt [mkSub true 0 [] Idle false false true [1; 2]%Z 0] Free false CNone [] []
+  mkSt [mkSub true 0 [] Idle false false true [1; 2]%Z 0] Free false CNone CNone [] [] []
        [1; 2]%Z [1; 2]%Z [1; 2]%Z [0%Z].
 
 Lemma rest_st_stuck vr : stuck vr rest_st.
@@ -566,12 +573,20 @@ Qed.
 (* ======================================================================================== *)
 (* T4: nothing is delivered after Close has returned *)
 
+Definition closing (s : st) : Prop :=
+  cl s = CWaitFwd \/ cl s = CReturned \/ cl2 s = CWaitFwd \/ cl2 s = CReturned.
+Definition returned (s : st) : Prop := cl s = CReturned \/ cl2 s = CReturned.
+
 Definition InvC (s : st) : Prop :=
-  (cl s = CWaitFwd \/ cl s = CReturned -> closed s = true) /\
-  (cl s = CReturned -> forall i b, nth_error (subs s) i = Some b -> fwd b = Exited).
+  (closing s -> closed s = true) /\
+  (returned s -> forall i b, nth_error (subs s) i = Some b -> fwd b = Exited).
 
 Lemma InvC_init : InvC init.
-Proof. split; cbn; [intros [H|H]; discriminate H | intro H; discriminate H]. Qed.
+Proof.
+  split; cbn.
+  - intros [H|[H|[H|H]]]; discriminate H.
+  - intros [H|H]; discriminate H.
+Qed.
 
 Lemma exited_upd sbs i (b b' : sub) :
   (forall k bk, nth_error sbs k = Some bk -> fwd bk = Exited) ->
@@ -583,20 +598,50 @@ Proof.
   - eapply I, Hk.
 Qed.
 
+(* a disjunction of equations between program counters, some of them absurd *)
+Ltac pick_disj :=
+  first [ assumption | reflexivity
+        | left; pick_disj | right; pick_disj ].
+
+Ltac c1_solve C1 :=
+  let E := fresh "E" in
+  intro E;
+  first [ reflexivity | assumption
+        | let X := fresh "X" in
+          assert (X := C1); lapply X;
+          [ clear X; intro X;
+            first [ discriminate X | exact X | rewrite X; apply orb_true_r ]
+          | destruct E as [E|[E|[E|E]]]; try discriminate E; pick_disj ] ].
+
+Ltac c2_solve C2 :=
+  let E := fresh "E" in
+  intro E; apply C2; destruct E as [E|E]; try discriminate E; pick_disj.
+
+Lemma all_exited sbs :
+  forallb (fun b => is_exited (fwd b)) sbs = true ->
+  forall i b, nth_error sbs i = Some b -> fwd b = Exited.
+Proof.
+  intros Hf k bk Hk. rewrite forallb_forall in Hf.
+  specialize (Hf bk (nth_error_In _ _ Hk)). destruct (fwd bk); try discriminate Hf.
+  reflexivity.
+Qed.
+
 Lemma InvC_step vr s e s' : InvC s -> step vr s e = Some s' -> InvC s'.
 Proof.
-  intros [C1 C2] H. destruct e; step_inv H; (split; simp_st); try assumption;
-    try solve [intros [E|E]; discriminate E]; try solve [intro E; discriminate E].
+  intros [C1 C2] H. unfold closing, returned in *.
+  destruct e; step_inv H; unfold InvC, closing, returned; (split; simp_st); try assumption.
   - (* Cancel *)
     intros Hcl. eapply exited_upd; [apply C2, Hcl | exact Heqo | simp_st; auto].
   - (* Want *)
     intros Hcl. eapply exited_upd; [apply C2, Hcl | exact Heqo | simp_st; auto].
   - (* WantAll *)
     intros Hcl. eapply exited_upd; [apply C2, Hcl | exact Heqo | simp_st; auto].
-  - (* BcLock, closed *)
-    intros _. assumption.
-  - (* BcLock, open *)
-    intros E. specialize (C1 E). discriminate C1.
+  - (* CloseCall *) c1_solve C1.
+  - c2_solve C2.
+  - (* Close2Call *) c1_solve C1.
+  - c2_solve C2.
+  - (* BcLock, closed *) c1_solve C1.
+  - (* BcLock, open *) c1_solve C1.
   - (* BcSend *)
     intros Hcl. eapply exited_upd; [apply C2, Hcl | exact Heqo | simp_st; auto].
   - (* FwdTake *)
@@ -610,14 +655,15 @@ Proof.
     intros Hcl. specialize (C2 Hcl _ _ Heqo). congruence.
   - (* SubLocked *)
     intros Hcl k bk Hk. apply nth_error_snoc in Hk as [Hk|(_ & -> & _)]; [eapply C2; eassumption|].
-    rewrite C1 by (right; exact Hcl). reflexivity.
-  - (* CloseLock *)
-    reflexivity.
-  - (* CloseWait *)
-    intros _. apply C1. left. reflexivity.
-  - intros _ k bk Hk. rewrite forallb_forall in Heqb.
-    specialize (Heqb bk (nth_error_In _ _ Hk)). destruct (fwd bk); try discriminate Heqb.
-    reflexivity.
+    rewrite C1; [reflexivity|]. destruct Hcl as [E|E]; pick_disj.
+  - (* CloseLock *) c1_solve C1.
+  - c2_solve C2.
+  - (* CloseWait *) c1_solve C1.
+  - intros _. apply all_exited. exact Heqb.
+  - (* Close2Lock *) c1_solve C1.
+  - c2_solve C2.
+  - (* Close2Wait *) c1_solve C1.
+  - intros _. apply all_exited. exact Heqb.
 Qed.
 
 Lemma reach_invC vr es s : run vr init es = Some s -> InvC s.
@@ -660,18 +706,20 @@ Proof.
 Qed.
 
 Lemma after_close_step vr s e s' :
-  InvC s -> cl s = CReturned -> step vr s e = Some s' ->
-  cl s' = CReturned /\ recv_pres (subs s) (subs s').
+  InvC s -> returned s -> step vr s e = Some s' ->
+  returned s' /\ recv_pres (subs s) (subs s').
 Proof.
-  intros [C1 C2] Hcl H. destruct e; step_inv H; simp_st; try discriminate Hcl;
-    (split; [assumption|]); try apply recv_pres_refl.
+  intros [C1 C2] Hcl H. specialize (C2 Hcl). unfold returned in *.
+  destruct e; step_inv H; simp_st;
+    (split; [destruct Hcl as [E|E]; try discriminate E; pick_disj|]);
+    try apply recv_pres_refl.
   - apply (recv_pres_upd _ _ _ _ Heqo); reflexivity.
   - apply (recv_pres_upd _ _ _ _ Heqo); reflexivity.
   - apply (recv_pres_upd _ _ _ _ Heqo); reflexivity.
   - apply (recv_pres_upd _ _ _ _ Heqo); reflexivity.
   - apply (recv_pres_upd _ _ _ _ Heqo); reflexivity.
   - (* FwdDeliver: the forwarder has exited *)
-    specialize (C2 Hcl _ _ Heqo). congruence.
+    specialize (C2 _ _ Heqo). congruence.
   - apply (recv_pres_upd _ _ _ _ Heqo); reflexivity.
   - apply (recv_pres_upd _ _ _ _ Heqo); reflexivity.
   - apply (recv_pres_upd _ _ _ _ Heqo); reflexivity.
@@ -679,7 +727,7 @@ Proof.
 Qed.
 
 Lemma after_close_run vr es' : forall s s',
-  InvC s -> cl s = CReturned -> run vr s es' = Some s' -> recv_pres (subs s) (subs s').
+  InvC s -> returned s -> run vr s es' = Some s' -> recv_pres (subs s) (subs s').
 Proof.
   induction es' as [|e es' IH]; intros s s' HC Hcl H; cbn [run] in H.
   - injection H as <-. apply recv_pres_refl.
@@ -689,8 +737,18 @@ Proof.
     apply IH; [eapply InvC_step; eassumption | exact Hcl1 | exact H].
 Qed.
 
+(* once either Close call has returned, the broadcaster is closed and every forwarder is gone *)
+Theorem main_close_returned_exited : forall vr es s, run vr init es = Some s ->
+  cl s = CReturned \/ cl2 s = CReturned ->
+  closed s = true /\ forall i b, nth_error (subs s) i = Some b -> fwd b = Exited.
+Proof.
+  intros vr es s Hr Hcl. destruct (reach_invC _ _ _ Hr) as [C1 C2]. split.
+  - apply C1. unfold closing. destruct Hcl as [E|E]; pick_disj.
+  - apply C2. exact Hcl.
+Qed.
+
 Theorem main_no_delivery_after_close : forall vr es s es' s', run vr init es = Some s ->
-  cl s = CReturned -> run vr s es' = Some s' ->
+  cl s = CReturned \/ cl2 s = CReturned -> run vr s es' = Some s' ->
   forall i b', nth_error (subs s') i = Some b' ->
     received b' = match nth_error (subs s) i with Some b => received b | None => [] end.
 Proof.
@@ -708,3 +766,24 @@ Example main_no_delivery_after_close_nonvacuous : forall vr, exists s s' b0 b1,
   nth_error (subs s') 0 = Some b0 /\ received b0 = [1%Z] /\
   nth_error (subs s') 1 = Some b1 /\ received b1 = [] /\ bret s' = [1; 2]%Z.
 Proof. intros []; eexists; eexists; eexists; eexists; ex_conj. Qed.
+
+(* non-vacuity: two overlapping Close calls, the SECOND returns while the first still waits for
+   the lock (Fixed: closeCh is closed by the first call before either has the lock); a Broadcast
+   and a Subscribe issued afterwards deliver nothing *)
+Example main_close2_returns_first_nonvacuous : exists s s' b0 b1,
+  run Fixed init [SubCall 0 true; SubLocked 0; BcCall 1%Z; BcLock 0; BcSend; BcEnd; FwdTake 0;
+                  FwdDeliver 0; CloseCall; Close2Call; FwdSeeDone 0; FwdExitLocked 0;
+                  Close2Lock; Close2Wait] = Some s /\
+  cl s = CWantLock /\ cl2 s = CReturned /\ closed s = true /\
+  run Fixed s [BcCall 2%Z; BcLock 0; SubCall 1 true; SubLocked 0; CloseLock; CloseWait]
+    = Some s' /\
+  nth_error (subs s') 0 = Some b0 /\ received b0 = [1%Z] /\ fwd b0 = Exited /\
+  nth_error (subs s') 1 = Some b1 /\ received b1 = [] /\ cl s' = CReturned.
+Proof. eexists; eexists; eexists; eexists; ex_conj. Qed.
+
+(* the same overlap on Original: the second Close takes the lock first and returns first *)
+Example main_close2_returns_first_original_nonvacuous : exists s,
+  run Original init [SubCall 0 true; SubLocked 0; CloseCall; Close2Call; Close2Lock;
+                     FwdSeeDone 0; FwdExitLocked 0; Close2Wait] = Some s /\
+  cl s = CWantLock /\ cl2 s = CReturned /\ closed s = true.
+Proof. eexists; ex_conj. Qed.
